@@ -96,7 +96,9 @@ def _transform(case, with_units):
     for i_ax, ax in enumerate(case["axes"]):
         if with_units:
             tu = u.Unit(ax["tout"])
-            s = models.Multiply(ax["a"] * tu / _pixu(case, i_ax)) | models.Shift(ax["b"] * tu)
+            s = models.Multiply(ax["a"] * tu / _pixu(case, i_ax))
+            if not case.get("noshift"):      # (a scale-only transform converts nothing on the way back: its result is in 'world unit * pix / transform unit')
+                s = s | models.Shift(ax["b"] * tu)
         else:
             k = float(UNITS[ax["tout"]][1] / UNITS[ax["world"]][1])
             s = models.Multiply(ax["a"] * k) | models.Shift(ax["b"] * k)
@@ -171,6 +173,8 @@ def _build(case, with_units):
 def _vals(r):
     """canonical form of a values-interface result: (kind, nested floats)"""
     seq = list(r) if isinstance(r, (tuple, list)) else [r]
+    # a pixel quantity in a composite unit ('Hz pix / MHz' from a scale-only transform) is the same pixel: read it in the plain unit
+    seq = [x.to(b_) if isinstance(x, u.Quantity) and x.unit != b_ and x.unit.is_equivalent(b_) else x for x in seq for b_ in [u.adu if isinstance(x, u.Quantity) and x.unit.is_equivalent(u.adu) else u.pix]]
     kinds = sorted({"Quantity" if isinstance(x, u.Quantity) else ("float" if np.ndim(x) == 0 else "ndarray") for x in seq})
     return {"kinds": kinds, "v": [np.asarray(getattr(x, "value", x), dtype=float).tolist() for x in seq],
             "units": [str(getattr(x, "unit", "")) for x in seq]}
@@ -194,7 +198,8 @@ def _objs(case, r):
         kinds.append(type(o).__name__)
         if isinstance(o, coord.SkyCoord):
             o2 = o.transform_to(SKY[case["sky"]])
-            out += [np.asarray(o2.spherical.lon.to_value(u.Unit(ax[0]["world"]))).tolist(), np.asarray(o2.spherical.lat.to_value(u.Unit(ax[1]["world"]))).tolist()]
+            lon_ = o2.spherical.lon.wrap_at(180 * u.deg) if case.get("neg_lon") else o2.spherical.lon   # a field written around lon 0 as -20..+30
+            out += [np.asarray(lon_.to_value(u.Unit(ax[0]["world"]))).tolist(), np.asarray(o2.spherical.lat.to_value(u.Unit(ax[1]["world"]))).tolist()]
             if o.frame.name != SKY[case["sky"]].name:
                 kinds[-1] += ":" + o.frame.name
         elif isinstance(o, time.Time):
@@ -289,19 +294,26 @@ def impl(case):
             other = u.THz if UNITS[ax[0]["world"]][0] == 2 else u.um
             r["inv_spectral_other"] = _try(lambda: _vals(w.invert(coord.SpectralCoord(alt[0]).to(other))))
             r["w2p_spectral_other"] = _try(lambda: _vals(w.world_to_pixel(coord.SpectralCoord(alt[0]).to(other))))
-        r["inv_obj"] = _try(lambda: _vals(w.invert(*objs())))
-        r["w2p_obj"] = _try(lambda: _vals(w.world_to_pixel(*objs())))
+        # (a SkyCoord carries its longitude in [0, 360): for a linear field written with negative longitudes only the quantity and
+        # number spellings name the same world point to the backward transform)
+        skyobj = case["family"] in ("sky", "cube", "tan") and case.get("neg_lon")
+        if not skyobj:
+            r["inv_obj"] = _try(lambda: _vals(w.invert(*objs())))
+            r["w2p_obj"] = _try(lambda: _vals(w.world_to_pixel(*objs())))
+            r["w2ai_obj"] = _try(lambda: _vals(w.world_to_array_index(*objs())))
         r["inv_units"] = _try(lambda: _vals(w.invert(*altq, with_units=True)))
         # WCS.transform from the output frame, named or handed over as the frame object, on the same rich inputs
-        r["tr_name"] = _try(lambda: _vals(w.transform(w.output_frame.name, "detector", *objs())))
-        r["tr_obj"] = _try(lambda: _vals(w.transform(w.output_frame, w.input_frame, *objs())))
+        if not skyobj:
+            r["tr_name"] = _try(lambda: _vals(w.transform(w.output_frame.name, "detector", *objs())))
+            r["tr_obj"] = _try(lambda: _vals(w.transform(w.output_frame, w.input_frame, *objs())))
         r["tr_alt"] = _try(lambda: _vals(w.transform(w.output_frame.name, "detector", *altq)))
         if case["family"] in ("sky", "tan") and not case.get("mixed"):
             # the iterative solver called directly: the same world point however it is given
             r["numinv_alt"] = _try(lambda: _vals(w.numerical_inverse(*altq)))
-            r["numinv_obj"] = _try(lambda: _vals(w.numerical_inverse(*objs())))
+            if not skyobj:
+                r["numinv_obj"] = _try(lambda: _vals(w.numerical_inverse(*objs())))
             r["numinv_bare"] = _try(lambda: _vals(w.numerical_inverse(*worldarg)))
-        if nm == "q" and case["family"] == "spectral" and not case.get("mixed") and UNITS[ax[0]["world"]][0] == 2:
+        if nm == "q" and case["family"] == "spectral" and not case.get("mixed") and not case.get("noshift") and UNITS[ax[0]["world"]][0] == 2:
             # keywords that are not the iterative solver's own go through to the analytic backward transform: a wavelength axis asked
             # for by frequency with a spectral equivalency
             nu = [a_.to(u.Hz, equivalencies=u.spectral()) for a_ in alt]
@@ -389,7 +401,7 @@ def oracle(case, res):
             r = res[nm].get(op)
             if r is None:
                 continue
-            if "err" in r and op.startswith("numinv") and nm == "q" and r["msg"].startswith("UnitsError"):
+            if "err" in r and op.startswith("numinv") and nm == "q" and (r["msg"].startswith("UnitsError") or (case.get("noshift") and r["msg"].startswith("TypeError:only dimensionless"))):
                 # finding D40: the iterative solver evaluates the forward transform on bare numbers
                 out.insert(0, ("D40", "%s on the unit-carrying WCS: %s" % (op, r["msg"])))
             elif "err" in r:
@@ -397,6 +409,17 @@ def oracle(case, res):
             elif not all(_close(a, b, absol=max(1e-4, otol) if "numinv" in op else otol if ("obj" in op or op == "tr_name") else ptol) for a, b in zip(r["v"], pix)) or len(r["v"]) != n:
                 out.append(("invert", "%s on the %s WCS (world in %s%s) gives pixels %s, expected %s" %
                             (op, nm, [a["alt"] for a in case["axes"]], ", objects in " + case.get("obj_sky", "-") if ("obj" in op or op == "tr_name") else "", r["v"], pix)))
+    # 3b. array indices from world objects: the rounded pixels, last axis first, as bare integers
+    want_idx = [np.floor(np.asarray(p) + 0.5).tolist() for p in pix][::-1]
+    for nm in ("q", "t"):
+        r = res[nm].get("w2ai_obj")
+        if r is None:
+            continue
+        if "err" in r:
+            out.append(("array_index", "world_to_array_index failed on the %s WCS: %s" % (nm, r["msg"])))
+        elif "Quantity" in r["kinds"] or len(r["v"]) != n or not all(_close(a, b, absol=0.0) for a, b in zip(r["v"], want_idx)):
+            out.append(("array_index", "world_to_array_index on the %s WCS (objects in %s, %s) gives %s %s, the rounded pixels are %s" %
+                        (nm, case.get("obj_sky", "-"), [a["alt"] for a in case["axes"]], r["kinds"], r["v"], want_idx)))
     # 4. pixel quantities
     for nm in ("q", "t"):
         for tag in ("all", "first", "last"):
@@ -581,7 +604,18 @@ def _gen_main(rng, tier):
             case["epoch"] = rng.choice([None, "2016-12-31T12:00:00", "1999-12-31T12:00:00"])
             case["tscale"] = rng.choice([None, "tai", "tt", "utc"])
         if fam in ("sky", "plane", "cube") and rng.random() < 0.3:
+            # a linear field around longitude 0 written with negative longitudes (-20 .. +30 deg)
+            a0 = case["axes"][0]
+            a0["b"] = -float(rng.randint(5, 20)) / float(UNITS[a0["tout"]][1])
+            case["neg_lon"] = True
+        if fam in ("sky", "plane", "cube") and rng.random() < 0.3:
             case["pixu"] = ["pix", "adu", "pix"][:len(case["axes"])]       # pixel axes in different units
+        if fam in ("spectral", "generic", "sky", "cube", "plane") and not case.get("mixed") and not case.get("mixed_rev") and rng.random() < 0.25:
+            # scale-only transforms (world = a * pixel): nothing in the transform converts units on the way back
+            for a_ in case["axes"]:
+                a_["b"] = 0.0
+            case["noshift"] = True
+            case.pop("neg_lon", None)
         if rng.random() < 0.3:
             # the WCS reached through a history (built in stages and used in between) rather than in one go
             case["staged"] = rng.choice(["insert_frame", "insert_frame", "set_transform", "insert_transform"])
